@@ -1,5 +1,5 @@
 From Coq Require Import List ZArith NArith Bool Arith Permutation.
-From QV Require Import TQueue.Model TQueue.Proofs TQueue.Proofs2.
+From QV Require Import TQueue.Model TQueue.Proofs TQueue.Proofs2 TQueue.Proofs3 TQueue.PtrModel TQueue.PtrProofs.
 Import ListNotations.
 Local Open Scope Z_scope.
 
@@ -61,16 +61,26 @@ Theorem stranded_is_stealable : forall st s p,
 Proof. exact stranded_is_stealable_l. Qed.
 Print Assumptions stranded_is_stealable.
 
-(* one queue, its owner only (no thief touches it): if y sits in the queue with R to its right, the owner dequeues y
-   only after every element of R was dequeued.  With thieves the statement is not proved here: _partial *)
-Theorem yield_precedence_partial : forall y ops q P R q' outs,
-  items q = P ++ y :: R -> ~ In y P -> ~ In y R ->
-  Forall (owner_op_not y) ops ->
-  qrun q ops = (q', outs) ->
-  forall k, nth_error ops k = Some QDeq -> nth_error outs k = Some [y] ->
-  forall x, In x R -> exists j, (j < k)%nat /\ In x (nth j outs []).
-Proof. exact Proofs2.yield_precedence_partial. Qed.
-Print Assumptions yield_precedence_partial.
+(* YIELD PRECEDENCE (all workers of the shepherd and thieves; lock-section alphabet wop).  y sits in q with R to its right
+   (for a task that has just been yield-enqueued: P = [] and R = the whole queue at that moment).  When an owner-side worker w
+   pops y, every element of R has left q before - popped by an owner-side worker or stolen - except that a worker other
+   than worker 0 passes over a McCoy task, which only worker 0 may run. *)
+Theorem yield_precedence : forall y ops q P R q' outs,
+  exact q -> items q = P ++ y :: R -> ~ In y P -> ~ In y R ->
+  Forall (push_ne y) ops ->
+  wrun q ops = (q', outs) ->
+  forall k w, nth_error ops k = Some (WPop w) -> nth k outs [] = [y] ->
+  forall x, In x R -> (exists j, (j < k)%nat /\ In x (nth j outs [])) \/ (mccoy x = true /\ w <> O).
+Proof. exact yield_precedence_l. Qed.
+Print Assumptions yield_precedence.
+
+(* what a thief may do to y: a steal hands out stealable nodes only - a stealable y may be stolen (it then runs on the
+   thief's shepherd; the property speaks about the owner's workers), an unstealable y is never taken by a thief *)
+Theorem thief_takes_only_stealable : forall ops q q' outs,
+  exact q -> wrun q ops = (q', outs) ->
+  forall k c, nth_error ops k = Some (WSteal c) -> Forall (fun n => stl n = true) (nth k outs []).
+Proof. exact thief_takes_only_stealable_l. Qed.
+Print Assumptions thief_takes_only_stealable.
 
 (* single worker: the queue is P ++ b :: R (a yielded waiter sits in P, b is the task it waits for).  With
    enough scheduler rounds b is dequeued after at most |R| + #spawned rounds and nothing from P runs before b *)
@@ -115,3 +125,62 @@ Theorem old_rule_starvation_cycle :
     snd (wrun q [WPop 1; WPushY A; WPop 0]) = [[]; []; [M]].
 Proof. exact Proofs2.old_rule_starvation_cycle. Qed.
 Print Assumptions old_rule_starvation_cycle.
+
+(* ---- pointer layer (PtrModel.v): each pointer-level operation keeps the heap well formed (NoDup node ids = acyclic,
+   head = first, tail = last, prev/next consistent in both directions, head->prev = tail->next = NULL) and its
+   abstraction is the list-level result ---- *)
+Theorem ptr_enqueue_refines : forall h q ids i v h' q',
+  wf h q ids -> ~ In i ids -> p_enqueue h q i v = (h', q') ->
+  wf h' q' (ids ++ [i]) /\ abs h' (ids ++ [i]) = abs h ids ++ [v].
+Proof. exact PtrProofs.ptr_enqueue_refines. Qed.
+Print Assumptions ptr_enqueue_refines.
+
+Theorem ptr_enqueue_yielded_refines : forall h q ids i v h' q',
+  wf h q ids -> ~ In i ids -> p_enqueue_yielded h q i v = (h', q') ->
+  wf h' q' (i :: ids) /\ abs h' (i :: ids) = v :: abs h ids.
+Proof. exact PtrProofs.ptr_enqueue_yielded_refines. Qed.
+Print Assumptions ptr_enqueue_yielded_refines.
+
+(* the general unlink of the owner path: any node i of a well-formed queue *)
+Theorem ptr_unlink_refines : forall h q a i b h' q',
+  wf h q (a ++ i :: b) -> p_unlink h q i = (h', q') ->
+  wf h' q' (a ++ b) /\ (forall x, cval (h' x) = cval (h x)) /\ abs h' (a ++ b) = abs h a ++ abs h b.
+Proof. exact PtrProofs.ptr_unlink_refines. Qed.
+Print Assumptions ptr_unlink_refines.
+
+(* owner pop (tail, or the node in front of the McCoy task for workers other than worker 0) = list-level dequeue_worker *)
+Theorem ptr_pop_refines : forall h q ids w ql qs o h' q',
+  wf h q ids -> p_pop h q w = (o, h', q') ->
+  match o with
+  | None => fst (dequeue_worker (mkQ (abs h ids) ql qs) w) = None /\ h' = h /\ q' = q
+  | Some i => exists a b, ids = a ++ i :: b /\ wf h' q' (a ++ b) /\
+                          fst (dequeue_worker (mkQ (abs h ids) ql qs) w) = Some (cval (h i)) /\
+                          items (snd (dequeue_worker (mkQ (abs h ids) ql qs) w)) = abs h' (a ++ b)
+  end.
+Proof. exact PtrProofs.ptr_pop_refines. Qed.
+Print Assumptions ptr_pop_refines.
+
+(* one splice of qt_threadqueue_dequeue_steal: the run fs..ls leaves the victim a ++ run ++ b, which stays a well-formed
+   queue a ++ b; the thief's chain sc becomes the well-formed standalone list sc ++ run *)
+Theorem ptr_splice_refines : forall h q a run b fs ls sc chain h' q' chain',
+  wf h q (a ++ run ++ b) -> ohd run None = Some fs -> olast run None = Some ls ->
+  NoDup sc -> (forall x, In x sc -> ~ In x (a ++ run ++ b)) -> dl h None sc None ->
+  match chain with
+  | None => sc = []
+  | Some (cf, cl) => ohd sc None = Some cf /\ olast sc None = Some cl /\ sc <> []
+  end ->
+  p_splice h q fs ls chain = (h', q', chain') ->
+  wf h' q' (a ++ b) /\
+  NoDup (sc ++ run) /\ dl h' None (sc ++ run) None /\
+  ohd (sc ++ run) None = Some (fst chain') /\ snd chain' = ls /\
+  (forall x, cval (h' x) = cval (h x)).
+Proof. exact PtrProofs.ptr_splice_refines. Qed.
+Print Assumptions ptr_splice_refines.
+
+Theorem ptr_enqueue_multiple_refines : forall h q ids c pc ec first last h' q',
+  wf h q ids -> NoDup c -> (forall x, In x c -> ~ In x ids) -> dl h pc c ec ->
+  ohd c None = Some first -> olast c None = Some last ->
+  p_enqueue_multiple h q first last = (h', q') ->
+  wf h' q' (ids ++ c) /\ (forall x, cval (h' x) = cval (h x)) /\ abs h' (ids ++ c) = abs h ids ++ abs h c.
+Proof. exact PtrProofs.ptr_enqueue_multiple_refines. Qed.
+Print Assumptions ptr_enqueue_multiple_refines.
